@@ -822,9 +822,9 @@ Proof.
     unfold clone. apply in_flat_map. exists c. split; auto. apply in_map_iff. eauto.
 Qed.
 
-Lemma admit_In nss g p : In p (admit nss g) -> In p g /\ (nss = [] \/ In (ns p) nss).
+Lemma ns_filter_In nss g p : In p (ns_filter nss g) -> In p g /\ (nss = [] \/ In (ns p) nss).
 Proof.
-  unfold admit. destruct nss as [|a r]; [auto|]. intros H. apply filter_In in H. destruct H as [H1 H2].
+  unfold ns_filter. destruct nss as [|a r]; [auto|]. intros H. apply filter_In in H. destruct H as [H1 H2].
   split; auto. right. now apply mem_In.
 Qed.
 
@@ -844,18 +844,20 @@ Proof.
   unfold select_nodeps. destruct req as [|r0 rr].
   - intros Hq. exists q. auto.
   - intros Hq. apply in_map_iff in Hq. destruct Hq as [p [<- Hp]]. exists p.
-    destruct (mem (pname p) (r0 :: rr)); cbn; repeat split; auto; discriminate.
+    destruct (mem (pname p) (r0 :: rr) || mem (key p) (r0 :: rr)); cbn; repeat split; auto; discriminate.
 Qed.
 
-(* no-deps selection: exactly the processes whose Name was requested stay enabled, without dependencies *)
+(* no-deps selection: exactly the processes whose Name or replica name was requested stay enabled,
+   without dependencies *)
 Theorem select_nodeps_spec g r0 rr q : In q (select_nodeps g (r0 :: rr)) ->
-  (dis q = false <-> In (pname q) (r0 :: rr)) /\ (dis q = false -> deps q = []) /\
+  (dis q = false <-> In (pname q) (r0 :: rr) \/ In (key q) (r0 :: rr)) /\ (dis q = false -> deps q = []) /\
   exists p, In p g /\ key q = key p /\ pname q = pname p /\ fg q = fg p.
 Proof.
   unfold select_nodeps. intros Hq. apply in_map_iff in Hq. destruct Hq as [p [<- Hp]].
-  destruct (mem (pname p) (r0 :: rr)) eqn:Em; cbn [clear_deps set_dis dis deps pname key fg].
-  - apply mem_In in Em. split; [tauto|]. split; auto. exists p. auto.
-  - apply mem_nIn in Em. split; [split; [discriminate|tauto]|]. split; [discriminate|]. exists p. auto.
+  destruct (mem (pname p) (r0 :: rr) || mem (key p) (r0 :: rr)) eqn:Em; cbn [clear_deps set_dis dis deps pname key fg].
+  - apply orb_true_iff in Em. rewrite !mem_In in Em. split; [tauto|]. split; auto. exists p. auto.
+  - apply orb_false_iff in Em. rewrite !mem_nIn in Em. split; [split; [discriminate|tauto]|].
+    split; [discriminate|]. exists p. auto.
 Qed.
 
 (* whatever Run() hands to runProcess is an admitted, enabled, non-foreground process *)
@@ -868,7 +870,7 @@ Theorem never_started ord i g1 pl : ord_ok ord -> pipeline ord i = OPlan g1 pl -
 Proof.
   intros Hord H k Hk. unfold pipeline in H.
   destruct (validate ord (clone (i_cfg i)) (cyc_fuel (clone (i_cfg i))) (i_strict i)) as [[]|]; try discriminate.
-  set (g0 := clone (i_cfg i)) in *. set (ga := admit (i_nss i) g0) in *.
+  set (g0 := clone (i_cfg i)) in *. set (ga := ns_filter (i_nss i) g0) in *.
   assert (Hsel : forall g2 q, (if i_nodeps i then Ok (select_nodeps ga (i_req i)) else select ord (wp_fuel ga) ga (i_req i)) = Ok g2 ->
             In q g2 -> exists p, In p ga /\ key q = key p /\ fg q = fg p /\ ns q = ns p /\ (i_req i = [] -> q = p)).
   { intros g2 q Hs Hq. destruct (i_nodeps i).
@@ -880,7 +882,7 @@ Proof.
   injection H as <- <-. cbn [p_run p_project] in *.
   destruct (run_set_sound ord g2 r Hord Er k Hk) as [q [Hq [Hqk [Hqd Hqf]]]].
   destruct (Hsel g2 q eq_refl Hq) as [p [Hp [Hk1 [Hf1 [Hn1 Hreq]]]]].
-  apply admit_In in Hp. destruct Hp as [Hp0 Hns]. apply clone_In in Hp0.
+  apply ns_filter_In in Hp. destruct Hp as [Hp0 Hns]. apply clone_In in Hp0.
   destruct Hp0 as [c [Hc [Hck [_ [_ [Hcd [Hcf Hcn]]]]]]].
   exists q. repeat split; auto.
   - rewrite Hn1. exact Hns.
